@@ -11,6 +11,22 @@ NOTE = ("Trusted base: the frozen effect / identity tables in kdverif (one reaso
         "the value-level behaviour of the property (see DESIGN.md section 4, 'N' lists).")
 
 CLAIMS = {
+    "C18": ("guard-flag typestate on the CFG of KDCollatorBase._call_impl, def-use identity of the context at every collate call site",
+            "Decides: every default_collate(batch) in _call_impl is reached only under a known-False 'collated' flag that is "
+            "set in the same loop step on every path, one flag for all sites (collation at most once for any order of "
+            "before/after/None collators); every context split is guarded by a flag, sets one of its guards, and any two "
+            "split sites block each other; (batch, ctx) is returned iff return_ctx; at every call of a member's collate "
+            "the result is bound whole to the batch, the ctx argument is a local and that local is what is returned as "
+            "context; PadSequencesCollator appends every field exactly once, pads rank>=1 tensor fields with "
+            "pad_sequence([b[i] for b in batch], batch_first=True) and default-collates the others with the same i. "
+            "Context contents and padded values are not decided."),
+    "C19": ("path obligations on the CFG of the cache lookup and the post-cache transform",
+            "Decides for every CachedDataset implementation: the wrapped dataset is read only under 'idx not in cache' with "
+            "the index parameter itself as key; the loaded value is stored under that key before returning and is the "
+            "value returned; hits return cache[idx] of the same key; dispose() empties the cache on every path; the cache "
+            "container is created per instance; CachedDataset.__getitem__ returns transform(_cached_getitem(idx)) exactly "
+            "when a transform is set, else the cached sample, and stores nothing; __len__ is len(dataset). Multi-process "
+            "sharing and value equality are not decided."),
     "C12": ("dependence sets of generator seeds, slice-shape and dominance rules on the samplers' __iter__",
             "Decides for ClassBalancedSampler, WeightedSampler and the repeated-augmentation path of DistributedSampler (and "
             "RandomSampler's repeat path): every draw takes generator=<torch.Generator seeded by an expression depending on "
